@@ -29,7 +29,15 @@ type Case struct {
 	// released Rounds times with fresh randomness (the later garblings
 	// run on recycled scratch buffers).
 	Rounds int `json:"rounds,omitempty"`
+	// SameKeyBuf: the later rounds write their (different) key into the
+	// key buffer of the first round instead of passing a fresh slice, as a
+	// caller that keeps one key array per connection does.
+	SameKeyBuf bool `json:"same_key_buf,omitempty"`
 }
+
+// foldInputs are total input wire counts around the sizes at which label
+// generation and table storage could be batched.
+var foldInputs = []int{255, 256, 257, 511, 512, 513, 600, 1023, 1024, 1025, 1100, 2047, 2048, 2049, 4097}
 
 func init() { ev.Register("garble", run) }
 
@@ -44,6 +52,22 @@ func genCase(t *rapid.T) Case {
 		o.MaxOutWidth = 9
 	}
 	cs.Circ = gen.DrawCirc(t, o)
+	if rapid.IntRange(0, 24).Draw(t, "fold") == 0 {
+		// Very wide input signature, every input reaching the outputs.
+		total := foldInputs[gen.Uniform(t, len(foldInputs), "foldinputs")]
+		if rapid.Bool().Draw(t, "foldany") {
+			total = rapid.IntRange(11, 1200).Draw(t, "foldtotal")
+		}
+		nargs := rapid.IntRange(1, 3).Draw(t, "foldargs")
+		widths := make([]int, nargs)
+		rest := total
+		for i := 0; i < nargs-1; i++ {
+			widths[i] = rapid.IntRange(1, rest-(nargs-1-i)).Draw(t, "foldw")
+			rest -= widths[i]
+		}
+		widths[nargs-1] = rest
+		cs.Circ = gen.DrawFold(t, widths, rapid.IntRange(1, 3).Draw(t, "foldouts"))
+	}
 	cs.KeyLen = rapid.SampledFrom([]int{16, 24, 32}).Draw(t, "keylen")
 	cs.Seed = rapid.Uint64().Draw(t, "seed")
 	nin := cs.Circ.NumIn()
@@ -53,6 +77,7 @@ func genCase(t *rapid.T) Case {
 	}
 	if rapid.IntRange(0, 3).Draw(t, "multi") == 0 {
 		cs.Rounds = rapid.IntRange(2, 4).Draw(t, "rounds")
+		cs.SameKeyBuf = rapid.Bool().Draw(t, "samekeybuf")
 	}
 	if nin > 10 {
 		n := rapid.IntRange(1, 8).Draw(t, "ninputs")
@@ -98,8 +123,14 @@ func run(cs Case) ev.Outcome {
 		rounds = 1
 	}
 	var out ev.Outcome
+	keybuf := make([]byte, cs.KeyLen)
 	for r := 0; r < rounds; r++ {
-		out = runRound(cs, circ, uint64(r))
+		key := gen.NewDRBG(cs.Seed, 2+16*uint64(r)).Bytes(cs.KeyLen)
+		if cs.SameKeyBuf {
+			copy(keybuf, key)
+			key = keybuf
+		}
+		out = runRound(cs, circ, uint64(r), key)
 		if out.Err != "" || out.Skip != "" {
 			if out.Err != "" && r > 0 {
 				out.Sig += "/regarble"
@@ -108,6 +139,9 @@ func run(cs Case) ev.Outcome {
 			return out
 		}
 	}
+	if rounds > 1 && cs.SameKeyBuf {
+		out.Classes = append(out.Classes, "regarbled-same-key-buffer")
+	}
 	if rounds > 1 {
 		out.Classes = append(out.Classes, "regarbled-after-release")
 		out.Evals *= rounds
@@ -115,10 +149,9 @@ func run(cs Case) ev.Outcome {
 	return out
 }
 
-func runRound(cs Case, circ *circuit.Circuit, round uint64) ev.Outcome {
+func runRound(cs Case, circ *circuit.Circuit, round uint64, key []byte) ev.Outcome {
 	c := cs.Circ
 	d := gen.NewDRBG(cs.Seed, 1+16*round)
-	key := gen.NewDRBG(cs.Seed, 2+16*round).Bytes(cs.KeyLen)
 	rd := &gen.LabelReader{D: d, Permute: cs.Permute}
 
 	g, err := circ.Garble(rd, key)
@@ -218,6 +251,9 @@ func runRound(cs Case, circ *circuit.Circuit, round uint64) ev.Outcome {
 	}
 	if nin > 10 {
 		classes = append(classes, "wide")
+	}
+	if nin > 512 {
+		classes = append(classes, "inputs>512")
 	}
 	out := ev.OK(c.NonFreeReachesOutput(), classes...)
 	out.Evals = len(asg)
